@@ -9,6 +9,7 @@ cd "$(dirname "$0")/.."
 N=${1:-120}; shift
 props=${@:-C05 C06 C07 C08 C10 C11 C13 C14 C16}
 tmp=$(mktemp -d /dev/shm/zdet.XXXX)
+export ZSIM_WALL_CAP=100000
 rc=0
 for p in $props; do
   n=$N; [ $p = C13 ] && n=$((N/6)); [ $p = C07 ] && n=$((N+32))
